@@ -35,4 +35,6 @@ def check(ctx, rep):
     _tok13.tok_13(ctx, rep)     # the indentation of a logical line is decided once
     from ..rules import rxr as _rx14
     _rx14.rx_14(ctx, rep)       # no exponentially ambiguous pattern: the matcher terminates in practice on every text
+    from ..rules import tok as _tok14
+    _tok14.tok_14(ctx, rep)     # the first-line block (BOM, start column) runs for the first line on every path
     rep.note('Not decided: true positions.')
